@@ -441,3 +441,66 @@ func init() {
 		return "check=ok keys=" + dash(strings.Join(inh, ",")) + " ex=" + dash(exk) + " info=" + dash(info)
 	}
 }
+
+// refs <model part> || <project>  ->  used=<n,n,...|-|err> check=<ok|code> missing=<n|-|?>
+// type names are @t<N>; `missing` is the name quoted in a "Type ... not found" message
+func init() {
+	tnum := func(s string) string {
+		if strings.HasPrefix(s, "@t") {
+			return s[2:]
+		}
+		return "?" + hexs([]byte(s))
+	}
+	handlers["refs"] = func(a []string) string {
+		i := 0
+		for i < len(a) && a[i] != "||" {
+			i++
+		}
+		p, _ := parseProject(a[i+1:])
+		s, err := p.build()
+		if err != nil {
+			return "build=" + err.Error()
+		}
+		used := guard(func() string {
+			u, err := s.UsedUserTypes()
+			if err != nil {
+				return "err"
+			}
+			if len(u) == 0 {
+				return "-"
+			}
+			ns := make([]string, len(u))
+			for k, x := range u {
+				ns[k] = tnum(x)
+			}
+			return strings.Join(ns, ",")
+		})
+		chk, missing := "ok", "-"
+		r := guard(func() string {
+			err := s.Check()
+			if err == nil {
+				return ""
+			}
+			msg := err.Error()
+			code := "raw"
+			if c := errCode(err); c >= 0 {
+				code = fmt.Sprint(c)
+			}
+			chk = code
+			if code == "1302" {
+				missing = "?"
+				if k := strings.Index(msg, `Type "`); k >= 0 {
+					rest := msg[k+6:]
+					if e := strings.Index(rest, `"`); e >= 0 {
+						missing = tnum(rest[:e])
+					}
+				}
+			}
+			return ""
+		})
+		if r != "" {
+			chk = r
+		}
+		return "used=" + used + " check=" + chk + " missing=" + missing
+	}
+}
